@@ -40,6 +40,8 @@ STORAGE_OPS = [
     ("storage_reserve_image_shape", ["dev", "arg"]),
     ("storage_get_state", ["dev"]),
 ]
+EXPLANATION += (' Camera state-follows table complete; a rejected set stops a camera the HAL believed Running; open returns only devices of the right kind with non-NULL slots (T-SLOTS with polarity); HAL-FORWARD: storage_append hands every non-empty region to the driver; leak keys separate the recorded describe-failure paths from other leaks.')
+
 
 
 def argval(a):
